@@ -26,7 +26,7 @@ C14_keyword_table C14_operator_table C14_single_table C14_op_classes C14_escape_
 C14_decode_is_lossy C14_decode_no_panic C14_decode_scalar C14_lossy_encode
 C14_lex_tiles C14_lex_filter C14_lex_error_located C14_fuel_sufficient C14_lex_no_panic C14_lex_total
 C14_operator_maximal_munch C14_munch_example
-C14_verbatim_string_value C14_surrogate_pairs C14_surrogate_pairs_onto C14_quoted_spec_example
+C14_verbatim_string_value C14_quoted_string_value C14_surrogate_pairs C14_surrogate_pairs_onto C14_quoted_spec_example
 C14_nonvacuous
 '''.split()
 THEOREMS = THEOREM_LIST
@@ -671,9 +671,9 @@ def check(run):
     cases = read_corpus()
     cases += gen_clusters(rng, run.tier)
     cases += gen_utf8(rng, run.tier)
-    cases += gen_grammar(rng, 2500 if quick else 40000)
-    cases += gen_random(rng, 3000 if quick else 60000)
-    cases += gen_mutated(rng, ui_corpus(), 1200 if quick else 15000)
+    cases += gen_grammar(rng, 2500 if quick else 30000)
+    cases += gen_random(rng, 3000 if quick else 40000)
+    cases += gen_mutated(rng, ui_corpus(), 1200 if quick else 8000)
     chunk = 20000
     for a in range(0, len(cases), chunk):
         run_cases(run, cases[a:a + chunk], impl_exe, model_exe, first_id=a)
